@@ -93,6 +93,7 @@ type rcAttempt struct {
 }
 
 type rcInj struct {
+	double bool   // 2 prefix: once the injected Close is inside the wrapped client's Close, Close is called again
 	cancel bool   // x prefix
 	kind   string // pre conn msg disc rst bo end
 	a, i   int
@@ -176,6 +177,10 @@ func rcParse(args []string) (*rcScenario, bool) {
 		}
 	}
 	in := args[4]
+	if strings.HasPrefix(in, "2") {
+		s.inj.double = true
+		in = in[1:]
+	}
 	if strings.HasPrefix(in, "x") {
 		s.inj.cancel = true
 		in = in[1:]
@@ -684,6 +689,10 @@ func rcRunScenario(sc *rcScenario) (trObs, retObs, monObs string, missed bool) {
 	closeDone := make(chan struct{})
 	var closeErr error
 	var closeStarted sync.Once
+	close2Done := make(chan struct{})
+	if !in.double || in.cancel {
+		close(close2Done)
+	}
 	doClose := func() { // asynchronous Close of the top-level client
 		closeStarted.Do(func() {
 			go func() {
@@ -691,6 +700,20 @@ func rcRunScenario(sc *rcScenario) (trObs, retObs, monObs string, missed bool) {
 				w.ev('$')
 				close(closeDone)
 			}()
+			if in.double && !in.cancel {
+				// a second Close (another goroutine of the caller) once the first one is inside the
+				// wrapped client's Close: it makes the same promises — when it returns, Subscribe has
+				// returned and nothing more is delivered
+				go func() {
+					select {
+					case <-w.innerClose:
+					case <-w.abandon:
+					}
+					top.Close()
+					w.ev('$')
+					close(close2Done)
+				}()
+			}
 		})
 	}
 	// inject from inside a callback (runs on the Subscribe goroutine)
@@ -821,7 +844,7 @@ func rcRunScenario(sc *rcScenario) (trObs, retObs, monObs string, missed bool) {
 	closeOK := false
 	if subOK || !in.cancel {
 		doClose()
-		closeOK = wait(closeDone)
+		closeOK = wait(closeDone) && wait(close2Done)
 	}
 	if !subOK || !closeOK {
 		missed = true
@@ -1128,8 +1151,14 @@ func (c *rcComp) Gen(r *rand.Rand, tier string) []string {
 				inj = fmt.Sprintf("%smsg:%d:%d:%s", x, a, r.Intn(4), beh)
 			case k < 15:
 				inj = fmt.Sprintf("%sdisc:%d", x, a)
+				if x == "" && r.Intn(3) == 0 {
+					inj = "2" + inj
+				}
 			case k < 18:
 				inj = fmt.Sprintf("%srst:%d", x, a+1)
+				if x == "" && r.Intn(3) == 0 {
+					inj = "2" + inj
+				}
 			default:
 				inj = fmt.Sprintf("bo:%d", a)
 				if tier != "thorough" && r.Intn(2) != 0 {
